@@ -18,7 +18,7 @@ Lemma rule_agrees (r : rule) (s : str) :
 Proof.
   intros Hs Hl. destruct r; try reflexivity.
   - (* Pascal *) unfold apply_rule, spec_name, words. rewrite (proj2 (pascal_words s [])). reflexivity.
-  - (* Camel *) unfold apply_rule, spec_name. apply camel_agrees; auto.
+  - (* Camel *) unfold apply_rule, spec_name. f_equal. apply camel_guard_agrees; auto.
 Qed.
 
 Lemma rule_eqb_eq a b : rule_eqb a b = true -> a = b.
@@ -38,11 +38,11 @@ Definition kinds_agree (t : aty) : Prop :=
   end.
 
 Lemma kinds_ok (t : aty) :
-  ty_dom t = true -> ty_bare_window t = false -> ty_ipc_channel t = false -> ty_short_request t = false ->
+  ty_dom t = true -> ty_bare_window t = false -> ty_short_request t = false ->
   kinds_agree t.
 Proof.
   unfold kinds_agree. destruct t as [pre n args|]; [|simpl; auto].
-  intros Hd Hw Hc Hr. unfold ty_dom in Hd. apply andb_true_iff in Hd as [Hsane Hd].
+  intros Hd Hw Hr. unfold ty_dom in Hd. apply andb_true_iff in Hd as [Hsane Hd].
   destruct n.
   - (* AppHandle *) unfold spec_kind. rewrite Hd. unfold pre_root in Hd.
     destruct pre as [|[] [|? ?]]; try discriminate; simpl; auto.
@@ -64,7 +64,6 @@ Proof.
     destruct (first_is_type args) eqn:Hf.
     + pose proof (first_is_type_angle _ Hf) as Ha. unfold pre_ipc in Hp.
       destruct pre as [|[] [|[] [|? ?]]]; simpl in *; try discriminate; rewrite ?Hf, ?Ha; auto.
-      destruct args as [[|[] l]|]; simpl in *; discriminate.
     + cbn [orb] in Hd. apply andb_true_iff in Hd as [Hnil Hnone].
       destruct pre; [|discriminate]. destruct args; [discriminate|]. simpl; auto.
   - (* Option *) unfold spec_kind. destruct pre as [|[] [|[] [|? ?]]]; simpl; auto.
@@ -134,7 +133,7 @@ Proof.
 Qed.
 
 Definition no_spelling_class (c : cmd) : Prop :=
-  kf_bare_window c = false /\ kf_ipc_channel c = false /\ kf_short_request c = false.
+  kf_bare_window c = false /\ kf_short_request c = false.
 
 Lemma existsb_false_In {A} (f : A -> bool) l x : existsb f l = false -> In x l -> f x = false.
 Proof. intros H Hin. destruct (f x) eqn:E; [|reflexivity]. rewrite <- H. symmetry. apply existsb_exists. eauto. Qed.
@@ -142,11 +141,10 @@ Proof. intros H Hin. destruct (f x) eqn:E; [|reflexivity]. rewrite <- H. symmetr
 Lemma param_kinds (c : cmd) (p : param) :
   cmd_dom c = true -> no_spelling_class c -> In p (c_params c) -> kinds_agree (p_ty p).
 Proof.
-  intros Hd (Hw & Hc & Hr) Hin. unfold cmd_dom in Hd. apply andb_true_iff in Hd as [_ Hd].
+  intros Hd (Hw & Hr) Hin. unfold cmd_dom in Hd. apply andb_true_iff in Hd as [_ Hd].
   pose proof (proj1 (forallb_forall _ _) Hd p Hin) as Hp. apply andb_true_iff in Hp as [_ Hp].
   apply kinds_ok; auto.
   - apply (existsb_false_In _ _ p Hw Hin).
-  - apply (existsb_false_In _ _ p Hc Hin).
   - apply (existsb_false_In _ _ p Hr Hin).
 Qed.
 
@@ -154,26 +152,24 @@ Qed.
 Lemma key_ok (cf : cfg) (c : cmd) (p : param) :
   cmd_dom c = true -> kf_macro_case cf c = false -> kf_underscore_name cf c = false ->
   In p (c_params c) -> named_by_tauri p = true ->
-  param_key cf (p_name p) = Ok (spec_name (spec_rule cf c) (p_name p)).
+  param_key cf (p_name p) = Ok (spec_key cf c (p_name p)).
 Proof.
   intros Hd Hm Hu Hin Hn. unfold param_key.
   unfold cmd_dom in Hd. apply andb_true_iff in Hd as [_ Hd].
   pose proof (proj1 (forallb_forall _ _) Hd p Hin) as Hp. apply andb_true_iff in Hp as [Hp _].
   unfold snake_name in Hp. apply andb_true_iff in Hp as [Hs _].
-  rewrite rule_agrees; auto.
-  - (* same name under the command's rule and under the configured one *)
-    unfold kf_macro_case in Hm. apply andb_false_iff in Hm as [Hm|Hm].
-    + apply negb_false_iff in Hm. apply rule_eqb_eq in Hm. rewrite Hm. reflexivity.
-    + pose proof (existsb_false_In _ _ p Hm Hin) as H. cbn beta in H. rewrite Hn in H. cbn [andb] in H.
-      apply negb_false_iff in H. apply str_eqb_eq in H. rewrite H. reflexivity.
-  - intros Hc. unfold kf_underscore_name in Hu. rewrite Hc in Hu. cbn [rule_eqb andb] in Hu.
-    pose proof (existsb_false_In _ _ p Hu Hin) as H. cbn beta in H. rewrite Hn in H. cbn [andb] in H.
-    apply negb_false_iff in H. exact H.
+  (* same key under the command attribute's case and under the configured one *)
+  pose proof (existsb_false_In _ _ p Hm Hin) as H. cbn beta in H. rewrite Hn in H. cbn [andb] in H.
+  apply negb_false_iff in H. apply str_eqb_eq in H. rewrite H.
+  apply rule_agrees; auto.
+  intros Hc. unfold kf_underscore_name in Hu. rewrite Hc in Hu. cbn [rule_eqb andb] in Hu.
+  pose proof (existsb_false_In _ _ p Hu Hin) as H'. cbn beta in H'. rewrite Hn in H'. cbn [andb] in H'.
+  apply negb_false_iff in H'. exact H'.
 Qed.
 
 Definition value_spec (cf : cfg) (c : cmd) (p : param) : str * bool :=
-  (spec_name (spec_rule cf c) (p_name p), spec_opt (p_ty p)).
-Definition chan_spec (cf : cfg) (c : cmd) (p : param) : str := spec_name (spec_rule cf c) (p_name p).
+  (spec_key cf c (p_name p), spec_opt (p_ty p)).
+Definition chan_spec (cf : cfg) (c : cmd) (p : param) : str := spec_key cf c (p_name p).
 
 Lemma analyse_ok (cf : cfg) (c : cmd) :
   cmd_dom c = true -> no_spelling_class c -> kf_macro_case cf c = false -> kf_underscore_name cf c = false ->
@@ -181,10 +177,7 @@ Lemma analyse_ok (cf : cfg) (c : cmd) :
                        x_chans := map (chan_spec cf c) (chan_params c) |}.
 Proof.
   intros Hd Hs Hm Hu. unfold analyse.
-  assert (Hname : exists k, camel_b (c_name c) = Ok k).
-  { pose proof Hd as Hd'. unfold cmd_dom in Hd'. apply andb_true_iff in Hd' as [Hn _]. apply andb_true_iff in Hn as [Hn Hl].
-    unfold snake_name in Hn. apply andb_true_iff in Hn as [Hn _]. eexists. apply camel_agrees; eauto. }
-  destruct Hname as [k ->].
+  cbn [apply_rule].
   rewrite (mapO_ok (value_entry cf) (value_spec cf c)).
   2:{ intros p Hin. apply filter_In in Hin as [Hin Hv]. apply negb_true_iff in Hv.
       pose proof (param_kinds c p Hd Hs Hin) as Hk. unfold kinds_agree in Hk.
@@ -327,26 +320,55 @@ Definition w_underscore : cmd := {| c_name := L "odd_name"; c_macro_case := None
   c_params := [mkp "__" (plain_t NOther); mkp "user_id" (plain_t NOther)] |}.
 
 Definition only_class (i : nat) (cf : cfg) (c : cmd) : bool :=
-  let l := [kf_bare_window c; kf_ipc_channel c; kf_short_request c; kf_macro_case cf c; kf_underscore_name cf c] in
-  forallb (fun jb => Bool.eqb (snd jb) (Nat.eqb (fst jb) i)) (combine (seq 0 5) l).
+  let l := [kf_bare_window c; kf_short_request c; kf_macro_case cf c; kf_underscore_name cf c] in
+  forallb (fun jb => Bool.eqb (snd jb) (Nat.eqb (fst jb) i)) (combine (seq 0 4) l).
+Definition good (cf : cfg) (m : mode) (c : cmd) : bool :=
+  match generate cf m c with
+  | Panic => false
+  | Ok g => match invoke_keys g with Some l => optional_ok cf c l | None => false end
+  end.
 
 Lemma refuted_bare_window :
   cmd_dom w_window = true /\ only_class 0 cfg_default w_window = true /\
   bad cfg_default Plain w_window = true /\ bad cfg_default Zod w_window = true.
 Proof. vm_compute. auto. Qed.
-Lemma refuted_ipc_channel :
-  cmd_dom w_ipc_channel = true /\ only_class 1 cfg_default w_ipc_channel = true /\
-  bad cfg_default Plain w_ipc_channel = true /\ bad cfg_default Zod w_ipc_channel = true.
-Proof. vm_compute. auto. Qed.
 Lemma refuted_short_request :
-  cmd_dom w_request = true /\ only_class 2 cfg_default w_request = true /\
+  cmd_dom w_request = true /\ only_class 1 cfg_default w_request = true /\
   bad cfg_default Plain w_request = true /\ bad cfg_default Zod w_request = true.
 Proof. vm_compute. auto. Qed.
 Lemma refuted_macro_case :
-  cmd_dom w_macro = true /\ only_class 3 cfg_default w_macro = true /\
+  cmd_dom w_macro = true /\ only_class 2 cfg_default w_macro = true /\
   bad cfg_default Plain w_macro = true /\ bad cfg_default Zod w_macro = true.
 Proof. vm_compute. auto. Qed.
+(* since the call-site guard: no panic, but the key is the name itself where Tauri deserialises the empty string *)
 Lemma refuted_underscore_name :
-  cmd_dom w_underscore = true /\ only_class 4 cfg_default w_underscore = true /\
-  generate cfg_default Plain w_underscore = Panic /\ generate cfg_default Zod w_underscore = Panic.
-Proof. vm_compute. auto. Qed.
+  cmd_dom w_underscore = true /\ only_class 3 cfg_default w_underscore = true /\
+  bad cfg_default Plain w_underscore = true /\ bad cfg_default Zod w_underscore = true /\
+  spec_keys cfg_default w_underscore = [([], false); (L "userId", false)] /\
+  option_map kb_of (match generate cfg_default Plain w_underscore with Ok g => invoke_keys g | Panic => None end)
+    = Some [(L "__", false); (L "userId", false)].
+Proof. vm_compute. repeat split; reflexivity. Qed.
+
+(* repaired: the former witnesses of C04-2 (ipc::Channel) and of the panic half of C04-5 *)
+Lemma fixed_ipc_channel :
+  cmd_dom w_ipc_channel = true /\ kf_any cfg_default w_ipc_channel = false /\
+  good cfg_default Plain w_ipc_channel = true /\ good cfg_default Zod w_ipc_channel = true /\
+  spec_keys cfg_default w_ipc_channel = [(L "onEvent", false); (L "jobId", false)].
+Proof. vm_compute. repeat split; reflexivity. Qed.
+
+(* generation never panics, whatever the names (the guard covers the function name and every key) *)
+Lemma mapO_total {A B} (f : A -> outcome B) (l : list A) :
+  (forall x, exists y, f x = Ok y) -> exists ys, mapO f l = Ok ys.
+Proof. intros H. induction l as [|x l [ys IH]]; [eexists; reflexivity|].
+  destruct (H x) as [y Hy]. exists (y :: ys). cbn [mapO]. rewrite Hy, IH. reflexivity. Qed.
+Lemma apply_rule_total r s : exists k, apply_rule r s = Ok k.
+Proof. destruct r; eexists; reflexivity. Qed.
+Theorem never_panics (cf : cfg) (m : mode) (c : cmd) : exists g, generate cf m c = Ok g.
+Proof.
+  unfold generate, analyse. cbn [apply_rule].
+  destruct (mapO_total (value_entry cf) (value_params c)) as [vs Hv].
+  { intros p. unfold value_entry, param_key. destruct (apply_rule_total (configured cf) (p_name p)) as [k ->]. eexists; reflexivity. }
+  destruct (mapO_total (fun p => param_key cf (p_name p)) (chan_params c)) as [cs Hc].
+  { intros p. apply apply_rule_total. }
+  rewrite Hv, Hc. eexists; reflexivity.
+Qed.
